@@ -1239,6 +1239,68 @@ pub fn run_c12_hist(ctx: &Ctx, st: &mut Local) {
     e.exhaustive = true;
 }
 
+/// files whose expanded form approaches the 128 MiB bound of the intermediate form
+pub fn run_c12_big(ctx: &Ctx, st: &mut Local) {
+    let name = "E14big";
+    if !ctx.engine_on(name) {
+        return;
+    }
+    let s = ctx.cur;
+    // expanded form of a stream-free file = 1 (version) + 1 (tag) + varint(len) + len
+    let mib = 1usize << 20;
+    let sizes: Vec<(usize, &str)> = vec![
+        (70 * mib, "70 MiB"),
+        (100 * mib, "100 MiB"),
+        (128 * mib - 6, "expanded form exactly 128 MiB"),
+        (128 * mib - 7, "expanded form 128 MiB - 1"),
+    ];
+    let mut idx = 0u64;
+    for (n, label) in sizes {
+        for prefix in [320 * 1024usize, 0] {
+            let i = idx;
+            idx += 1;
+            count(ctx, name, st, i, true);
+            if !ctx.take(name, i) {
+                continue;
+            }
+            if ctx.quick() && prefix == 0 {
+                continue;
+            }
+            // incompressible prefix (so that the zstd frame is larger than 256 KiB), then zeros
+            let mut f = text_family(4, prefix);
+            // make sure no signature look-alike starts a long analysis in the noise: harmless either way
+            f.resize(n, 0);
+            st.sample(name, || format!("#{} file of {} bytes ({}), noise prefix {}", i, n, label, prefix));
+            ctx.begin(name, i, 600_000);
+            let bound = comp::zstd_compress_bound(n + 16);
+            let mut z = vec![0u8; bound];
+            let mut rs: u64 = 0;
+            let rc = unsafe { s.c_compress(f.as_ptr(), f.len() as u64, z.as_mut_ptr(), bound as u64, &mut rs) };
+            if rc != 0 || rs as usize > bound {
+                ctx.end();
+                st.violation(ctx.viol(name, i, "compress-fails-with-ample-buffer", None, format!("{}: WrapperCompressZip status {} with capacity {}", label, rc, bound), &[]));
+                continue;
+            }
+            z.truncate(rs as usize);
+            let mut out = vec![0u8; n + 64];
+            let mut rs2: u64 = 0;
+            let rc2 = unsafe { s.c_decompress(z.as_ptr(), z.len() as u64, out.as_mut_ptr(), out.len() as u64, &mut rs2) };
+            ctx.end();
+            if rc2 != 0 {
+                st.violation(ctx.viol(name, i, "decompress-fails-with-sufficient-buffer", None,
+                    format!("{} (frame {} bytes): WrapperDecompressZip status {} although the expanded form is within 128 MiB", label, z.len(), rc2), &[]));
+            } else if rs2 as usize != n || out[..n] != f[..] {
+                st.violation(ctx.viol(name, i, "decompress-output-wrong", None, format!("{}: round trip returns {} bytes that differ from the file", label, rs2), &[]));
+            } else {
+                st.outcome(name, "large-file-round-trip");
+            }
+        }
+    }
+    let e = st.eng(name);
+    e.bound = "stream-free files of 70 MiB, 100 MiB and with an expanded form of exactly 128 MiB and 128 MiB - 1, with a 320 KiB incompressible prefix (zstd frame > 256 KiB) and without (thorough), through both C wrappers".into();
+    e.exhaustive = true;
+}
+
 // ---------------------------------------------------------------------------------------------
 // C13: I/O environment exploration
 
